@@ -24,6 +24,43 @@ here = os.path.dirname(os.path.dirname(os.path.abspath(__file__)))
 ALL = ["C%02d" % i for i in range(1, 21)]
 
 
+class Commuter(ast.NodeTransformer):
+    """behaviour-preserving rewrites of expressions: a * b -> b * a (numbers / arrays / sequence repetition commute), a < b -> b > a, a == b -> b == a;
+    positional arguments of calls to plain names are left alone.  Only inside function bodies."""
+
+    def __init__(self):
+        self.count = 0
+        self.depth = 0
+
+    def visit_FunctionDef(self, node):
+        self.depth += 1
+        self.generic_visit(node)
+        self.depth -= 1
+        return node
+
+    visit_AsyncFunctionDef = visit_FunctionDef
+
+    def visit_BinOp(self, node):
+        self.generic_visit(node)
+        if self.depth and isinstance(node.op, ast.Mult) and not isinstance(node.left, (ast.Constant, ast.List, ast.Tuple, ast.JoinedStr)) \
+                and not isinstance(node.right, (ast.List, ast.Tuple, ast.JoinedStr)) and not (isinstance(node.right, ast.Constant) and isinstance(node.right.value, str)):
+            node.left, node.right = node.right, node.left
+            self.count += 1
+        return node
+
+    def visit_Compare(self, node):
+        self.generic_visit(node)
+        if self.depth and len(node.ops) == 1 and isinstance(node.ops[0], (ast.Lt, ast.LtE, ast.Gt, ast.GtE, ast.Eq, ast.NotEq)):
+            flip = {ast.Lt: ast.Gt, ast.LtE: ast.GtE, ast.Gt: ast.Lt, ast.GtE: ast.LtE, ast.Eq: ast.Eq, ast.NotEq: ast.NotEq}
+            # `x is None`-style and chained comparisons are untouched; constants on the left are legal python
+            l, r = node.left, node.comparators[0]
+            if isinstance(r, ast.Constant) and r.value is None:
+                return node
+            node.left, node.comparators, node.ops = r, [l], [flip[type(node.ops[0])]()]
+            self.count += 1
+        return node
+
+
 class Renamer(ast.NodeTransformer):
     def __init__(self, suffix):
         self.suffix = suffix
@@ -73,7 +110,7 @@ class Renamer(ast.NodeTransformer):
     visit_AsyncFunctionDef = visit_FunctionDef
 
 
-def build(suffix):
+def build(suffix, mode="rename"):
     tmp = tempfile.mkdtemp(prefix="rename_", dir="/tmp")
     n_files = n_names = 0
     for root, dirs, files in os.walk("/repo/pybrops"):
@@ -88,7 +125,7 @@ def build(suffix):
                 continue
             text = open(src, encoding="utf-8").read()
             tree = ast.parse(text)
-            r = Renamer(suffix)
+            r = Renamer(suffix) if mode == "rename" else Commuter()
             tree = r.visit(tree)
             ast.fix_missing_locations(tree)
             out = ast.unparse(tree)
@@ -134,8 +171,12 @@ def main():
     suffix = argv[argv.index("--suffix") + 1] if "--suffix" in argv else "_rn"
     tier = argv[argv.index("--tier") + 1] if "--tier" in argv else "quick"
     ids = [a for a in argv if re.fullmatch(r"C\d\d", a)] or ALL
-    tmp, nf, nn = build(suffix)
-    print("renamed copy: %d files, %d local-name occurrences renamed (suffix %s), re-emitted by ast.unparse" % (nf, nn, suffix))
+    mode = argv[argv.index("--mode") + 1] if "--mode" in argv else "rename"
+    tmp, nf, nn = build(suffix, mode)
+    if mode == "rename":
+        print("renamed copy: %d files, %d local-name occurrences renamed (suffix %s), re-emitted by ast.unparse" % (nf, nn, suffix))
+    else:
+        print("commuted copy: %d files, %d products / comparisons with their operands exchanged (a*b -> b*a, a<b -> b>a), re-emitted by ast.unparse" % (nf, nn))
     try:
         bad = unk = 0
         with cf.ProcessPoolExecutor(max_workers=min(16, os.cpu_count() or 4)) as ex:
